@@ -38,6 +38,11 @@ class WeightedGraph:
             self.E[i, j] = value
             self.incoming[j].add(i)
             self.outgoing[i].add(j)
+        elif (i, j) in self.E:
+            # an entry that cancels to zero (signed weights) must not keep its old value
+            del self.E[i, j]
+            self.incoming[j].discard(i)
+            self.outgoing[i].discard(j)
         return self
 
     def closure(self):
